@@ -4,8 +4,7 @@
 use crate::gen2::{Scn2, P2};
 use crate::oracles::{OracleSel, ORACLES};
 use crate::run::{run_history, World};
-use ats_smart_contract::ask_order::{AskOrderClass, AskOrderStatus, AskOrderV1};
-use ats_smart_contract::bid_order::BidOrderV3;
+use crate::format::{AskClass, AskRec, BidRec};
 use rust_decimal::prelude::{FromPrimitive, ToPrimitive};
 use rust_decimal::{Decimal, RoundingStrategy};
 use serde_json::{json, Value};
@@ -121,6 +120,11 @@ pub fn profiles_for(oracle: &str) -> &'static [&'static str] {
         "queries" => &["match", "config", "migration", "admission", "default"],
         "attributes" => &["match", "auth", "admission", "default", "convertible", "fees", "nonlot", "migration"],
         "instantiate_coherence" => &["instantiate"],
+        // every profile builds a book or a configuration
+        "storage_format" => &[
+            "migration", "instantiate", "config", "match", "admission", "auth", "default",
+            "convertible", "fees", "nonlot", "markers",
+        ],
         // the state-level oracles: every profile whose books are produced by requests only
         _ => &[
             "default", "convertible", "fees", "nonlot", "markers", "auth", "config", "admission",
@@ -437,11 +441,11 @@ impl Scn {
         })
     }
 
-    fn approve(&self, rng: &mut Rng, ask: &AskOrderV1) -> Value {
+    fn approve(&self, rng: &mut Rng, ask: &AskRec) -> Value {
         json!({
             "execute": {"approve_ask": {"id": ask.id, "base": "base", "size": ask.size.to_string()}},
             "sender": self.maybe_wrong(rng, &self.approver),
-            "funds": self.funds("base", ask.size.u128()),
+            "funds": self.funds("base", ask.size),
         })
     }
 
@@ -452,8 +456,8 @@ impl Scn {
     /// Next step, generated from the live state of the world.
     fn gen_step(&mut self, rng: &mut Rng, world: &World) -> Value {
         let book = world.book();
-        let asks: Vec<AskOrderV1> = book.v1_asks().cloned().collect();
-        let bids: Vec<BidOrderV3> = book.v3_bids().cloned().collect();
+        let asks: Vec<AskRec> = book.v1_asks().cloned().collect();
+        let bids: Vec<BidRec> = book.v3_bids().cloned().collect();
 
         while let Some(p) = self.plan.pop_front() {
             match p {
@@ -467,27 +471,13 @@ impl Scn {
             }
         }
 
-        let pending: Vec<&AskOrderV1> = asks
+        let pending: Vec<&AskRec> = asks
             .iter()
-            .filter(|a| {
-                matches!(
-                    a.class,
-                    AskOrderClass::Convertible {
-                        status: AskOrderStatus::PendingIssuerApproval
-                    }
-                )
-            })
+            .filter(|a| matches!(a.class, AskClass::Pending))
             .collect();
-        let matchable: Vec<&AskOrderV1> = asks
+        let matchable: Vec<&AskRec> = asks
             .iter()
-            .filter(|a| {
-                !matches!(
-                    a.class,
-                    AskOrderClass::Convertible {
-                        status: AskOrderStatus::PendingIssuerApproval
-                    }
-                )
-            })
+            .filter(|a| !matches!(a.class, AskClass::Pending))
             .collect();
 
         let has_a = !asks.is_empty();
@@ -536,12 +526,8 @@ impl Scn {
                 } else {
                     bid.price.clone()
                 };
-                let rem = bid
-                    .base
-                    .amount
-                    .u128()
-                    .saturating_sub(bid.accumulated_base.u128());
-                let max = ask.size.u128().min(rem).max(1);
+                let rem = bid.base.amount.saturating_sub(bid.accumulated_base);
+                let max = ask.size.min(rem).max(1);
                 let arbitrary_pct = if self.profile == Profile::Nonlot { 70 } else { 30 };
                 let size = if rng.chance(arbitrary_pct) {
                     rng.range(1, max)
@@ -560,7 +546,7 @@ impl Scn {
             }
             1 => {
                 let ask = rng.pick(&asks);
-                let lots = (ask.size.u128() / self.increment).max(1);
+                let lots = (ask.size / self.increment).max(1);
                 let size = if rng.chance(75) {
                     Some((self.increment * rng.range(1, lots)).to_string())
                 } else {
@@ -574,11 +560,7 @@ impl Scn {
             }
             2 => {
                 let bid = rng.pick(&bids);
-                let rem = bid
-                    .base
-                    .amount
-                    .u128()
-                    .saturating_sub(bid.accumulated_base.u128());
+                let rem = bid.base.amount.saturating_sub(bid.accumulated_base);
                 let lots = (rem / self.increment).max(1);
                 let size = if rng.chance(75) {
                     Some((self.increment * rng.range(1, lots)).to_string())
@@ -724,8 +706,10 @@ fn one_iteration(
         G::New(s) => s.header(),
     };
     let mut world = World::new(&header).ok()?;
-    // the original profiles do not judge the instantiate step (behaviour unchanged)
+    // the original profiles do not judge the instantiate step (behaviour unchanged), except for
+    // the shape of the records it writes
     let inst_sel = match &scn {
+        G::Old(_) if sel.wants("storage_format") => OracleSel::One("storage_format".to_string()),
         G::Old(_) => OracleSel::Nothing,
         G::New(_) => sel.clone(),
     };
@@ -838,7 +822,7 @@ fn shrink(hit: Hit) -> Hit {
 }
 
 const SEARCH_USAGE: &str = "usage: ats-replay search --oracle <name|all|new> --seed <u64> --iters <n> [--max-steps k] [--out <file.json>] [--profile default|convertible|fees|nonlot|markers|auth|config|admission|match|migration|instantiate|auto] [--stats]
-  --oracle all   every oracle registered for the profile;  --oracle new   the nine step-level oracles registered for it
+  --oracle all   every oracle registered for the profile;  --oracle new   the ten step-level oracles registered for it
   --profile auto cycles through the profiles registered for the oracle (see `ats-replay oracles --profiles`)";
 
 pub fn cmd_search(args: &[String]) -> i32 {
